@@ -113,8 +113,10 @@ C07_Serial(e)       == e.ev # "EventOverlap"
 (* C08 - the parts that are single steps *)
 \* a self-signed death notice that changes the record records a departure, not a failure
 \* (the local node itself refutes unless it is leaving)
+\* (a departure learnt through push/pull is one too: the entry says "left", whatever the step derived from it)
+SaysLeft(e) == e.claim.from = e.claim.node \/ (e.via = "merge" /\ e.claim.kind = "left")
 C08_Left(e) ==
-  (IsNodeOp(e) /\ e.op = "dead" /\ e.claim.from = e.claim.node /\ e.post # e.pre
+  (IsNodeOp(e) /\ e.op = "dead" /\ SaysLeft(e) /\ e.post # e.pre
      /\ ~(AboutSelf(e) /\ ~e.leave))
     => e.post.state = "left"
 
@@ -225,7 +227,7 @@ StepAnte(name, e) ==
     [] name = "C02_MergeReaches"  -> e.ev = "MergeEntry" /\ Accuses(e)
     [] name = "C02_SelfAlive"     -> e.ev \in {"NodeOp", "Reap"} /\ ~e.leave /\ e.created
     [] name = "C07_Serial"        -> e.ev \in {"NodeOp", "Reap"} /\ e.events # <<>>
-    [] name = "C08_Left"          -> IsNodeOp(e) /\ e.op = "dead" /\ e.claim.from = e.claim.node /\ e.post # e.pre
+    [] name = "C08_Left"          -> IsNodeOp(e) /\ e.op = "dead" /\ SaysLeft(e) /\ e.post # e.pre
     [] name = "C08_LeftAt"        -> IsNodeOp(e) /\ e.op = "dead" /\ e.claim.from = e.claim.node /\ e.post # e.pre
                                      /\ e.post.state = "left"
     [] name = "C08_NoResurrect"   -> IsNodeOp(e) /\ e.op = "alive" /\ e.pre.state = "left" /\ ~AddrDiffers(e)
